@@ -94,7 +94,9 @@ fn shard(seed: u64, shard: u64, n: u64) -> Tally {
                     parts.remove(p);
                 }
                 while parts.len() < k {
-                    parts.push(r.pick(&["x", "aws4_request", "", "us-east-1"]).to_string());
+                    // extra parts anywhere: in front of a still valid scope tail, in the middle, at the end
+                    let pos = r.usize_below(parts.len() + 1);
+                    parts.insert(pos, r.pick(&["x", "aws4_request", "", "us-east-1"]).to_string());
                 }
                 (parts.join("/"), format!("arity-{}", k))
             }
